@@ -1308,6 +1308,11 @@ class LinearOperator(object):
         :param upper: Upper triangular or lower triangular factor (default: False).
         :return: Cholesky factor (lower or upper triangular)
         """
+        if not self.is_square:
+            raise RuntimeError(
+                "cholesky only operates on (batches of) square (positive semi-definite) LinearOperators. "
+                "Got a {} of size {}.".format(self.__class__.__name__, self.size())
+            )
         chol = self._cholesky(upper=False)
         if upper:
             chol = chol._transpose_nonbatch()
